@@ -32,7 +32,8 @@ def gen(rng, tier, index):
     version = rng.choice(["1.4", "1.5", "2.0", "2.1", "2.2"])
     return {
         "cfg": {"version": version, "fmt": rng.choice(["pickle", "json"]), "flavour": rng.choice(["serial", "serial", "aserial", "amqtt", "tcp"]),
-                "main": rng.choice(MAIN), "bak": rng.choice(BAK), "k": rng.random(), "kb": rng.random()},
+                "main": rng.choice(MAIN), "bak": rng.choice(BAK), "k": rng.random(), "kb": rng.random(),
+                "relpath": rng.choice([None, None, "mysensors", "some_folder/mysensors", "./data/../ms"])},
         "state": diskutil.state_lines(rng, version, rng.randint(1, 25)),
         "older": diskutil.state_lines(rng, version, rng.randint(1, 10)),
     }
@@ -57,7 +58,7 @@ def _damage(data, how, frac):
 def run(case):
     cfg = case["cfg"]
     flavour = cfg["flavour"]
-    dw = diskutil.DiskWorld(cfg["version"], cfg["fmt"], flavour=flavour)
+    dw = diskutil.DiskWorld(cfg["version"], cfg["fmt"], flavour=flavour, relpath=cfg.get("relpath"))
     violations, probes, faults = [], {}, {}
     incomplete = None
     key = None
@@ -66,7 +67,7 @@ def run(case):
     try:
         try:
             fs = dw.fs
-            path = dw.path
+            path = dw.abspath
             bak = path + ".bak"
             gw = dw.gateway()
             dw.feed(gw, case["older"])
